@@ -31,13 +31,44 @@ section, nameless temporaries across section borders when the target is not on t
 choice depends on the pass: Expect.silent / not definite).  In the corpus part, lines inside macro expansions are only
 recorded, not judged (the hooks do not tell the macro-local tree from the global one).
 
-Findings on the pinned tree (known_findings/C13.json, proposed_fixes/C13-*.diff):
-  popv_const          POPV overwrites an EQU constant (PopSymbol ignores Changeable)
-  dd_same_name        $$name survives a definition of a non-temporary symbol with the same name as the previous one
-  empty_macro_nested  a macro without body lines called inside a macro drops the caller's local-symbol handle
+Findings on the pinned tree d9f49b6 (known_findings/C13.json, proposed_fixes/C13-*.diff/.md); all three are repaired in
+/repo by now ("fix:" commits), the entries are "fixed" and suppress nothing - on a tree without a repair the check
+reports the VIOLATION again (witness texts of Symbols_Gen, mode "witness", make that deterministic):
+  popv_const          POPV overwrote an EQU constant / a label (PopSymbol ignored Changeable; 65536 passes on a label)
+  dd_same_name        $$name survived a definition of a non-temporary symbol with the same name as the previous one
+  empty_macro_nested  a macro without body lines called inside a macro dropped the caller's local-symbol handle
+The machine keeps the three deviations switchable (field devs), so the model of the pinned tree stays checkable.
 
-Binding shown by mutation (scratch copies of /repo, VERIF_REPO=...; all compiled and passed the 201 ctest tests unless
-noted): see MUTATIONS at the end of this file.
+Binding shown by mutation (patches: selftest/C13-m*.diff): each mutant below was applied to a scratch copy of /repo, built, run through the
+repository's 201 ctest tests (result in brackets) and through `VERIF_REPO=<copy> ./check C13 --tier quick`.
+All but the last were reported as VIOLATION (exit 1):
+  asmpars.c FindNode: innermost section not searched            [128 tests fail]  unexpected "symbol undefined"
+  asmpars.c FindNode: parent level skipped from depth 2 on       [3 fail]    unexpected "symbol undefined"
+  asmpars.c FindNode: no upper-casing of the looked-up name      [116 fail]  unexpected "symbol undefined"
+  asmpars.c FindNode: FORWARD list ignored                       [201 pass]  word = global instead of later local
+  asmpars.c FindNode: name[sect] falls back to the global table  [201 pass]  missing "undefined" error
+  asmpars.c IdentifySection: PARENTn one level too far           [1 fail]    unexpected "unknown section"
+  asmpars.c GetSectionHandle: section names not upper-cased      [201 pass]  unexpected "unknown section"
+  asmpars.c SymbolAdder: double definition accepted              [201 pass]  pass loop does not end / missing error
+  asmpars.c SymbolAdder: EQU/SET mixing accepted                 [201 pass]  missing error
+  asmpars.c EnterSymbol: PUBLIC target ignored                   [3 fail]    unexpected double definition
+  asmpars.c EnterSymbol: PUBLIC entry not used up                [5 fail]    unexpected "unresolved forward"
+  asmpars.c EnterSymbol: GLOBAL copy without the section path    [201 pass]  unexpected double definition
+  asmpars.c ChkTmp2: back reference index off by one             [1 fail]    unexpected syntax error
+  asmpars.c ChkTmp2: "/" not entered into the back log           [1 fail]    unexpected syntax error
+  asmpars.c ChkTmp3: LastGlobSymbol frozen at the first symbol   [2 fail]    unexpected double definition
+  asmpars.c LOCSYMSIGHT 2                                        [201 pass]  unexpected syntax error on "+++"
+  asmpars.c LookupSymbol: FindLocNode not consulted              [6 fail]    word = global instead of macro-local label
+  asmpars.c PopSymbol: second element instead of the top         [201 pass]  LIFO witness: word 4112 instead of 4128
+  asmallg.c CodePUSHV: stack name not upper-cased                [201 pass]  unexpected "stack is empty"
+  asmallg.c CodeENDSECTION: outermost section never left         [7 fail]    unexpected "symbol undefined"
+  asmpars.c FindLocNode: enclosing expansions not searched       [201 pass]  NOT reported as violation: the manual does
+      not say that a nested expansion sees the labels of the expansion around it, so such references are "not
+      definite" (compared with the machine as SPEC-DRIFT only).
+The three proposed fixes together (scratch copy, 201/201 ctest): exit 0, no KNOWN-FINDING, no VIOLATION; the recorded
+traces of texts with a deviation pattern are then accepted by the repaired machine (devs without that deviation).
+Corrupting one recorded field (section handle of a sym_ref observation + 1) makes Symbols_Trace reject the trace at
+exactly that event.
 """
 import hashlib
 import os
